@@ -914,8 +914,8 @@ func TestC13(t *testing.T) {
 	// in replay mode the probes only set the exclusion switches (so that a stored case is
 	// executed exactly as it was when it failed) and announce nothing
 	probeWeightDefects(t, stat.ReplayPath() == "")
-	stat.Check(t, st, "machine", stat.N(3000, 40000), drawMachine, runMachine)
-	stat.Check(t, st, "weightlist", stat.N(3000, 40000), drawWeightList, runWeightList)
+	stat.Check(t, st, "machine", stat.N(6000, 20000), drawMachine, runMachine)
+	stat.Check(t, st, "weightlist", stat.N(4000, 20000), drawWeightList, runWeightList)
 }
 
 // ------------------------------------------------------------------------ concurrent variant
@@ -1367,7 +1367,7 @@ func TestC13Race(t *testing.T) {
 	// Known lines are emitted by unit 1 only
 	quietProbeWeightDefects()
 	probeRandomRace(t, stat.ReplayPath() == "")
-	stat.Check(t, st, "concurrent", stat.N(60, 1500), drawConcurrent, runConcurrent)
+	stat.Check(t, st, "concurrent", stat.N(100, 250), drawConcurrent, runConcurrent)
 }
 
 func quietProbeWeightDefects() {
